@@ -978,7 +978,14 @@ class ASTStubGenerator(BaseStubGenerator, mypy.traverser.TraverserVisitor):
             if (
                 isinstance(lvalue, NameExpr)
                 and self.is_alias_expression(o.rvalue)
-                and not self.is_private_name(lvalue.name)
+                and (
+                    not self.is_private_name(lvalue.name)
+                    # Private TypeVar-likes are referenced by public signatures.
+                    or (
+                        isinstance(o.rvalue, CallExpr)
+                        and self.get_fullname(o.rvalue.callee) in TYPE_VAR_LIKE_NAMES
+                    )
+                )
             ):
                 alias_ann = getattr(o.unanalyzed_type, "name", None)
                 is_explicit_type_alias = bool(alias_ann) and self.resolve_name(alias_ann) in (
